@@ -1,2 +1,78 @@
-(* C06 - string length and pattern constraints (placeholder; statements follow) *)
-From GJS Require Import Base Regex Schema GoType Exec.
+(* C06 - string length and pattern constraints are enforced exactly.
+   Statements only; every proof is `exact <lemma>`; Print Assumptions under each. *)
+From GJS Require Import Base Regex Schema GoType Gen Exec Valid ExecP GenP CoreP.
+
+(* the emitted checks (len comparisons, regexp.MatchString) accept exactly the strings whose length
+   lies in [minLength, maxLength] and that match the pattern - whenever byte length and character
+   count coincide (e.g. ASCII) *)
+Theorem C06_validator : forall mn mx p s, utf8_len s = length s ->
+  check_string mn mx p s = if spec_string mn mx p s then Ok tt else Err.
+Proof. exact check_string_exact. Qed.
+Print Assumptions C06_validator.
+
+Theorem C06_ascii : forall s, Forall (fun c => (c < 128)%N) s -> utf8_len s = length s.
+Proof. exact utf8_len_ascii. Qed.
+Print Assumptions C06_ascii.
+
+(* in general they compute the same predicate on the BYTE length (Go's len) ... *)
+Theorem C06_validator_bytes : forall mn mx p s,
+  check_string mn mx p s = if spec_string_bytes mn mx p s then Ok tt else Err.
+Proof. exact check_string_bytes. Qed.
+Print Assumptions C06_validator_bytes.
+
+(* ... so the full statement (length in characters) is false of the faithful model: D10 *)
+Theorem C06_refuted_multibyte : exists mn mx s, spec_string mn mx None s = true /\ check_string mn mx None s = Err.
+Proof. exact check_string_multibyte_refuted. Qed.
+
+(* the validator is attached exactly when one of the three keywords is set, with the schema's constants,
+   with the nil guard exactly for pointer (optional / nullable) fields *)
+Theorem C06_attached : forall fname jn c b nillable, has_string_kw c = true ->
+  field_validators fname jn c b TString nillable = [VString fname jn nillable (c_min_len c) (c_max_len c) (c_pattern c)].
+Proof. exact string_validator_attached. Qed.
+Print Assumptions C06_attached.
+Theorem C06_attached_pointer : forall fname jn c b nillable, has_string_kw c = true ->
+  field_validators fname jn c b (TPtr TString) nillable = [VString fname jn true (c_min_len c) (c_max_len c) (c_pattern c)].
+Proof. exact string_validator_attached_ptr. Qed.
+Print Assumptions C06_attached_pointer.
+Theorem C06_not_attached : forall fname jn c b nillable, has_string_kw c = false -> field_validators fname jn c b TString nillable = [].
+Proof. exact string_validator_absent. Qed.
+Print Assumptions C06_not_attached.
+
+(* required (value) / optional or nullable (pointer) / absent or null (nil pointer: never checked);
+   fname = [] is the named-definition case (`plain` itself) *)
+Theorem C06_value : forall dvf raw st fname jname mn mx p s, get_plain fname st = Some (GS s) ->
+  after_step dvf raw st (VString fname jname false mn mx p) = if spec_string_bytes mn mx p s then Ok st else Err.
+Proof. exact vstring_value. Qed.
+Print Assumptions C06_value.
+Theorem C06_pointer : forall dvf raw st fname jname mn mx p s, get_plain fname st = Some (GP (GS s)) ->
+  after_step dvf raw st (VString fname jname true mn mx p) = if spec_string_bytes mn mx p s then Ok st else Err.
+Proof. exact vstring_pointer. Qed.
+Print Assumptions C06_pointer.
+Theorem C06_absent_or_null : forall dvf raw st fname jname mn mx p, get_plain fname st = Some GNil ->
+  after_step dvf raw st (VString fname jname true mn mx p) = Ok st.
+Proof. exact vstring_nil. Qed.
+Print Assumptions C06_absent_or_null.
+
+(* end to end for a struct method: an object whose string property violates its constraint is never
+   accepted, whatever the other properties and validators are (every fuel) *)
+Theorem C06_enforced : forall fmt_ok env f c0 name fs vs kv fl jn (nillable : bool) mn mx p s,
+  NoDup (map f_name fs) -> In fl fs -> f_addl fl = false -> f_name fl <> [] ->
+  f_ty fl = (if nillable then TPtr TString else TString) ->
+  lookup (f_json fl) kv = Some (JStr s) ->
+  In (VString (f_name fl) jn nillable mn mx p) vs -> (forall v', In v' vs -> touches (f_name fl) v' = false) ->
+  spec_string_bytes mn mx p s = false ->
+  is_ok (dec fmt_ok env f (TStruct (c0 :: name) fs (Some vs)) (JObj kv)) = false.
+Proof. exact struct_enforces_string. Qed.
+Print Assumptions C06_enforced.
+
+(* non-vacuity: the generated type of a concrete schema meets the hypotheses, and a boundary document is rejected *)
+Definition ex_schema : schema :=
+  Sch (mkC [SObject] None None [[115]%N] 0 0 0 0 None None (mkBounds None None None None) None None)
+      [([115]%N, Sch (mkC [SString] None None [] 0 0 2 3 None None (mkBounds None None None None) None None) [] None false None [] [])]
+      None false None [] [].
+Example C06_example :
+  exists t b, gen (fun s => s) (mkCfg false false) [] 10 MDeclared None false ex_schema [82]%N = Done (t, b) /\
+    is_ok (dec (fun _ _ => true) [] 10 t (JObj [([115]%N, JStr [97; 98]%N)])) = true /\
+    is_ok (dec (fun _ _ => true) [] 10 t (JObj [([115]%N, JStr [97]%N)])) = false /\
+    is_ok (dec (fun _ _ => true) [] 10 t (JObj [([115]%N, JStr [97; 98; 99; 100]%N)])) = false.
+Proof. eexists. eexists. split; [vm_compute; reflexivity|]. vm_compute. repeat split; reflexivity. Qed.
